@@ -9,6 +9,7 @@ order, and evaluating it yields an equal value of the same type that renders
 to the same text.
 """
 import itertools
+import re
 import time
 
 from mc import core
@@ -251,8 +252,146 @@ def _fix(x):
     return x
 
 
+# ---- data values as library calls produce them --------------------------------
+_SW = {}
+
+
+def _sweep_session():
+    from mc import sweep
+    if "s" not in _SW:
+        V = core.ckl.values
+        # numbers at which the host's floats stop being exact (this
+        # process's copy of the pool only)
+        for name, val in (("2^53+1", V.ValueInt(2 ** 53 + 1)),
+                          ("10^30", V.ValueInt(10 ** 30)),
+                          ("-2^63-1", V.ValueInt(-2 ** 63 - 1)),
+                          ("2^53+1.0", V.ValueDecimal(float(2 ** 53 + 2))),
+                          ("1e300", V.ValueDecimal(1e300))):
+            if name not in sweep.POOL_INDEX:
+                sweep.POOL.append((name, lambda s, val=val: val))
+                sweep.POOL_INDEX[name] = len(sweep.POOL) - 1
+        _SW["s"] = sweep.SweepSession(legacy=True)
+    return _SW["s"]
+
+
+def is_data(v, depth=0, seen=None):
+    """NULL, booleans, ints, decimals, strings, patterns and finite lists,
+    sets and maps of them"""
+    V = core.ckl.values
+    if seen is None:
+        seen = set()
+    if v is V.NULL or isinstance(v, (V.ValueBoolean, V.ValueInt,
+                                     V.ValueString, V.ValuePattern)):
+        return True
+    if isinstance(v, V.ValueDecimal):
+        x = v.value
+        return not (isinstance(x, float) and (x != x or x in (
+            float("inf"), float("-inf"))))
+    if depth > 5 or id(v) in seen:
+        return False
+    seen.add(id(v))
+    if isinstance(v, (V.ValueList, V.ValueSet)):
+        return all(is_data(e, depth + 1, seen) for e in v.value)
+    if isinstance(v, V.ValueMap):
+        return all(is_data(k, depth + 1, seen) and is_data(w, depth + 1, seen)
+                   for k, w in v.value.items())
+    return False
+
+
+def pattern_hazard(v, depth=0):
+    V = core.ckl.values
+    if isinstance(v, V.ValuePattern):
+        t = str(v.value)
+        return "//" in t or t.endswith("/")
+    if depth > 5:
+        return False
+    if isinstance(v, (V.ValueList, V.ValueSet)):
+        return any(pattern_hazard(e, depth + 1) for e in v.value)
+    if isinstance(v, V.ValueMap):
+        return any(pattern_hazard(k, depth + 1) or pattern_hazard(w, depth + 1)
+                   for k, w in v.value.items())
+    return False
+
+
+def result_faults(v):
+    """list of (law, expected, observed) for one data value v as it came out
+    of a library call"""
+    V = core.ckl.values
+    out = []
+    o = core.outcome_raw(lambda: str(v))
+    if o[0] != "value":
+        return [("render-raises", "text", list(o[:2]))]
+    text = o[1]
+    if len(text) > 4000:
+        return []
+    if isinstance(v, V.ValueInt) and not re.fullmatch(r"-?\d+", text):
+        out.append(("int-renders-as-integer-numeral", "-?d+", text))
+    if isinstance(v, V.ValueDecimal) and not R.DEC_RE.match(text):
+        out.append(("decimal-renders-with-fractional-part", "-?d+.d+", text))
+    s = session().reset()
+    r = s.run(text, "roundtrip", fuel=50000)
+    if r[0] != "value":
+        return out + [("roundtrip-evaluates", text, list(r))]
+    try:
+        back = s.interp.interpret(text, "roundtrip")
+    except BaseException as e:  # pragma: no cover
+        return out + [("roundtrip-evaluates", text, repr(e))]
+    if not (back == v and v == back):
+        out.append(("roundtrip-equal", text, repr(back)))
+    elif back.type() != v.type():
+        out.append(("roundtrip-same-type", v.type(), back.type()))
+    elif str(back) != text:
+        out.append(("roundtrip-same-text", text, str(back)))
+    return out
+
+
+def call_result(fname, argnames):
+    from mc import sweep
+    s = _sweep_session()
+    fn = dict(s.funcs)[fname]
+    o, args = s.call(fn, tuple(argnames))
+    return o
+
+
+def explore_results(chunk):
+    from mc import sweep
+    agg = core.Agg()
+    s = _sweep_session()
+    fmap = dict(s.funcs)
+    names = [n for n, _ in sweep.POOL if n not in sweep.FORMS_ONLY]
+    for fname in chunk["funcs"]:
+        n = sweep.nparams_of(fmap[fname])
+        tuples = [()]
+        if n >= 1:
+            tuples += [(a,) for a in names]
+        if n >= 2:
+            pool2 = names if chunk["tier"] == "thorough" else sweep.SUBPOOL
+            tuples += [(a, b) for a in pool2 for b in pool2]
+        for t in tuples:
+            o = call_result(fname, t)
+            agg.count("steps")
+            if o[0] != "value" or not is_data(o[1]):
+                continue
+            hz = "pattern-slashes" if pattern_hazard(o[1]) else ""
+            agg.cls(("result", o[1].type(), hz))
+            for law, expd, obs in result_faults(o[1]):
+                agg.violation(
+                    {"law": law, "kind": o[1].type(), "hazard": hz,
+                     "callee": fname},
+                    {"t": "result", "callee": fname, "args": list(t)},
+                    expd, obs, size=len(t) * 100 + sum(len(x) for x in t))
+        agg.count("cases")
+    return agg
+
+
 def replay(case, verbose=False):
     agg = core.Agg()
+    if case["t"] == "result":
+        o = call_result(case["callee"], case["args"])
+        f = result_faults(o[1]) if o[0] == "value" and is_data(o[1]) else []
+        if verbose:
+            print(case, core.show_raw(o), f)
+        return bool(f)
     if case["t"] in ("value", "order"):
         check_value(agg, _fix(case["v"]))
     else:
@@ -279,9 +418,16 @@ def main(tier, seed):
     agg.merge(core.pmap(explore_orders, [{"subsets": c} for c in
                                          core.chunked(subsets,
                                                       core.NPROC * 2)]))
+    fnames = [f for f, _ in _sweep_session().funcs]
+    agg.merge(core.pmap(explore_results,
+                        [{"funcs": c, "tier": tier}
+                         for c in core.chunked(fnames, core.NPROC * 4)]))
     core.finish(
         PID, tier, seed, agg, t0,
-        rule=(f"{len(vals)} data values (atoms: ints to 10^30, decimals "
+        rule=(f"every data value returned by {len(fnames)} library "
+              f"functions x argument tuples of arity <= 2 over the value "
+              f"pool of the call sweep; "
+              f"{len(vals)} data values (atoms: ints to 10^30, decimals "
               f"+-d*10^e for 4 mantissas and every e in [-30,30] plus "
               f"extremes, all strings of length <= 2 over "
               f"{len(STR_ALPHA)} adversarial characters, patterns; "
